@@ -8,6 +8,7 @@ Line protocol (symbolic crypto instance `symCrypto`):
           <pd: b:<hex> | absent | notbytes>
           <m4: r:<pd> (the M4 envelope) | raise:protocol | raise:http | raise:timeout | raise:auth>
     → `<ok|err:<Class>> keys=<out>/<in>|none trace=<ev>;<ev>;…`   (ev = name:hex:hex…)
+  verify <same arguments>   → the same for `verify_credentials()` alone: `<ok|err:<raw Class>> keys=none trace=…`
   readtlv <hex>   → `err` | `<tag>=<hex>,<tag>=<hex>…` (insertion order; `-` when empty)
   writetlv <tag>=<hex>,…  → hex
 -/
@@ -87,6 +88,19 @@ def handle (_ : Unit) (ws : List String) : Unit × String :=
         | some (o, i) => s!"{toHex o}/{toHex i}"
       let tr := if st.trace.isEmpty then "-" else String.intercalate ";" (st.trace.map Ev.toStr)
       ((), s!"{res} keys={keys} trace={tr}")
+    | _, _, _, _, _, _, _, _, _ => ((), "bad-op")
+  | ["verify", t, ltpk, ltsk, atvId, clientId, ownPriv, ownPub, pd, m4] =>
+    -- `verify_credentials()` alone (call sites that derive no keys); exception class unmapped
+    match transport? t, ofHex? ltpk, ofHex? ltsk, ofHex? atvId, ofHex? clientId,
+          ofHex? ownPriv, ofHex? ownPub, pd? pd, m4? m4 with
+    | some t, some ltpk, some ltsk, some atvId, some clientId, some ownPriv, some ownPub,
+      some pd, some m4 =>
+      let out := verifyCredentials symCrypto t ⟨ltpk, ltsk, atvId, clientId⟩ ⟨ownPriv, ownPub⟩ ⟨pd, m4⟩
+      let res := match out.2 with
+        | .ok _ => "ok"
+        | .error e => "err:" ++ e.cls.toStr
+      let tr := if out.1.isEmpty then "-" else String.intercalate ";" (out.1.map Ev.toStr)
+      ((), s!"{res} keys=none trace={tr}")
     | _, _, _, _, _, _, _, _, _ => ((), "bad-op")
   | ["readtlv", h] =>
     match ofHex? h with
